@@ -155,3 +155,26 @@ def firstOffset (v : VarLay) (start : List Nat) : Nat :=
     o * v.xsz + v.begin
 
 end PnVerif.Access
+
+namespace PnVerif.Access
+
+/-! ### transcription of is_request_contiguous (ncmpio_filetype.c) -/
+
+/-- the scan `for (i=ndims-1; i>most_sig_dim; i--)`: `dims` lists (shape, count) from the innermost
+    dimension outwards and ENDS with the most significant dimension considered (which is never tested
+    for being partial).  At the first partial dimension all outer counts must be ≤ 1. -/
+def contigScan : List (Nat × Nat) → Bool
+  | [] => true
+  | [_] => true
+  | (n, c) :: outer => if c < n then outer.all (fun d => d.2 ≤ 1) else contigScan outer
+
+/-- is_request_contiguous(isRecVar, numRecVars, ndims, shape, start, count); lists outermost first -/
+def isReqContig (isRec : Bool) (numRecVars : Nat) (shape count : List Nat) : Bool :=
+  if shape.length = 0 then true else
+  if count.any (· = 0) then true else                      -- zero-length request
+  if isRec ∧ numRecVars > 1 then
+    if count.headD 0 > 1 then false
+    else contigScan ((shape.zip count).drop 1).reverse      -- most_sig_dim = 1
+  else contigScan (shape.zip count).reverse                 -- most_sig_dim = 0
+
+end PnVerif.Access
